@@ -2,5 +2,6 @@ pub mod capture;
 pub mod dec;
 pub mod engine;
 pub mod gen;
+pub mod interp;
 pub mod props;
 pub mod tape;
